@@ -27,6 +27,11 @@ pub open spec fn wsum_all(s: Seq<u8>) -> int {
 /// the checksum as the crate's helpers produce it before `.to_be()`: complement of the folded native-endian sum
 pub open spec fn cksum_ne(total: int) -> int { 0xffff - oc16(total) }
 
+/// the accumulator value v (a folded sum) represents the mathematical total t. Used as the trigger of the flattened call-chain
+/// clauses: `repr(acc.val(), t) ==> repr(result.val(), t + words)` — the first argument ties each clause to one accumulator, so
+/// instantiations do not feed each other (no matching loop).
+pub open spec fn repr(v: int, t: int) -> bool { t >= 0 && oc16(t) == v }
+
 pub proof fn lemma_oc16_range(x: int)
     requires x >= 0
     ensures 0 <= oc16(x) <= 65535, (x > 0 ==> oc16(x) >= 1), (x <= 65535 ==> oc16(x) == x)
@@ -288,6 +293,129 @@ pub proof fn lemma_fold32(sum: u32, first: u32, u16value: u16)
     lemma_oc16_range(t);
     assert(u16value as int == t);
     assert(!u16value == 0xffffu16 - u16value) by (bit_vector);
+}
+
+
+// ------------------------------------------------------------------------------------------------------------------
+// big-endian (RFC) form. The crate sums native-endian words and byte-swaps the folded result (`.to_be()`); RFC 1071
+// section 2(B) "byte order independence": swapping the bytes of every word swaps the bytes of the one's-complement sum.
+// ------------------------------------------------------------------------------------------------------------------
+
+/// big-endian 16 bit word of the byte pair (a, b) as it appears on the wire
+pub open spec fn wb(a: u8, b: u8) -> int { 256 * (a as int) + b as int }
+/// big-endian word of a u16 / its two halves
+pub open spec fn hi8(x: u16) -> u8 { (x / 256) as u8 }
+pub open spec fn lo8(x: u16) -> u8 { (x % 256) as u8 }
+
+/// sum of big-endian words of the first n bytes (n even)
+pub open spec fn wsum_be(s: Seq<u8>, n: int) -> int
+    decreases n
+{
+    if n <= 1 { 0 } else { wsum_be(s, n - 2) + wb(s[n - 2], s[n - 1]) }
+}
+/// RFC 1071: sum of the big-endian 16-bit words of s, an odd trailing byte is padded with a zero byte on the right
+pub open spec fn wsum_be_all(s: Seq<u8>) -> int {
+    if s.len() % 2 == 0 { wsum_be(s, s.len() as int) } else { wsum_be(s, s.len() - 1) + wb(s[s.len() - 1], 0) }
+}
+/// sum of the second bytes of every word (the amount by which 256 * LE-sum exceeds the BE-sum, in units of 65535)
+pub open spec fn hsum(s: Seq<u8>, n: int) -> int
+    decreases n
+{
+    if n <= 1 { 0 } else { hsum(s, n - 2) + s[n - 1] as int }
+}
+
+/// the Internet checksum of RFC 1071 as a 16-bit number in network byte order semantics (value whose big-endian bytes go on the wire)
+pub open spec fn rfc1071(be_total: int) -> int { 0xffff - oc16(be_total) }
+/// UDP (RFC 768): a computed checksum of zero is transmitted as all ones
+pub open spec fn rfc1071_nz(be_total: int) -> int { if rfc1071(be_total) == 0 { 0xffff } else { rfc1071(be_total) } }
+pub open spec fn swap16(x: int) -> int { (x % 256) * 256 + x / 256 }
+
+pub proof fn lemma_le_be_prefix(s: Seq<u8>, n: int)
+    requires 0 <= n <= s.len(), n % 2 == 0
+    ensures 256 * wsum(s, n) == wsum_be(s, n) + 65535 * hsum(s, n), wsum_be(s, n) >= 0, hsum(s, n) >= 0, wsum(s, n) >= 0,
+        wsum_be(s, n) == 0 ==> hsum(s, n) == 0
+    decreases n
+{
+    if n > 1 { lemma_le_be_prefix(s, n - 2); }
+}
+
+/// payload part: relation between the native-endian and the big-endian word sum of a whole byte string
+pub proof fn lemma_le_be_all(s: Seq<u8>) -> (k: int)
+    ensures 256 * wsum_all(s) == wsum_be_all(s) + 65535 * k, k >= 0, wsum_be_all(s) >= 0, wsum_all(s) >= 0, wsum_be_all(s) == 0 ==> k == 0
+{
+    if s.len() % 2 == 0 { lemma_le_be_prefix(s, s.len() as int); hsum(s, s.len() as int) }
+    else { lemma_le_be_prefix(s, s.len() - 1); hsum(s, s.len() - 1) }
+}
+
+pub proof fn lemma_oc16_period(x: int, k: int)
+    requires x >= 0, k >= 0, x == 0 ==> k == 0
+    ensures oc16(x + 65535 * k) == oc16(x)
+{
+    if x > 0 {
+        vstd::arithmetic::div_mod::lemma_mod_multiples_vanish(k, x - 1, 65535);
+        assert(x + 65535 * k - 1 == 65535 * k + (x - 1));
+    }
+}
+
+pub proof fn lemma_oc16_idem(x: int)
+    requires x >= 0
+    ensures oc16(oc16(x)) == oc16(x)
+{
+    lemma_oc16_range(x); lemma_oc16_range(oc16(x));
+}
+
+/// multiplying by 256 (= moving every byte to the other half of its word) byte-swaps the folded sum
+pub proof fn lemma_oc16_times256(x: int)
+    requires x >= 0
+    ensures oc16(256 * x) == swap16(oc16(x))
+{
+    let y = oc16(x);
+    lemma_oc16_range(x);
+    // 256*x and 256*y have the same one's-complement value
+    if x > 0 {
+        // x == y + 65535 * q
+        let q = (x - 1) / 65535;
+        vstd::arithmetic::div_mod::lemma_fundamental_div_mod(x - 1, 65535);
+        assert(x == y + 65535 * q);
+        vstd::arithmetic::div_mod::lemma_div_pos_is_pos(x - 1, 65535);
+        assert(256 * x == 256 * y + 65535 * (256 * q)) by (nonlinear_arith) requires x == y + 65535 * q;
+        lemma_oc16_period(256 * y, 256 * q);
+    }
+    // 256*y == swap16(y) + 65535 * (y / 256) for 0 <= y <= 65535
+    let lo = y % 256; let hi = y / 256;
+    vstd::arithmetic::div_mod::lemma_fundamental_div_mod(y, 256);
+    assert(y == 256 * hi + lo);
+    assert(256 * y == swap16(y) + 65535 * hi) by (nonlinear_arith) requires y == 256 * hi + lo, swap16(y) == lo * 256 + hi;
+    assert(0 <= hi <= 255 && 0 <= lo <= 255) by (nonlinear_arith) requires y == 256 * hi + lo, 0 <= y <= 65535, 0 <= lo < 256;
+    if swap16(y) == 0 { assert(hi == 0) by (nonlinear_arith) requires lo * 256 + hi == 0, lo >= 0, hi >= 0; }
+    lemma_oc16_period(swap16(y), hi);
+    assert(0 <= swap16(y) <= 65535) by (nonlinear_arith) requires swap16(y) == lo * 256 + hi, 0 <= hi <= 255, 0 <= lo <= 255;
+    lemma_oc16_range(swap16(y));
+}
+
+/// the crate's native-endian result, byte-swapped, is the RFC 1071 checksum over the big-endian words
+pub proof fn lemma_to_be(le_total: int, be_total: int, k: int)
+    requires le_total >= 0, be_total >= 0, k >= 0, 256 * le_total == be_total + 65535 * k, be_total == 0 ==> k == 0
+    ensures swap16(0xffff - oc16(le_total)) == rfc1071(be_total),
+        swap16(if 0xffff - oc16(le_total) == 0 { 0xffff } else { 0xffff - oc16(le_total) }) == rfc1071_nz(be_total),
+{
+    lemma_oc16_times256(le_total);
+    lemma_oc16_period(be_total, k);
+    lemma_oc16_range(le_total);
+    let y = oc16(le_total);
+    // complement commutes with the byte swap
+    let lo = y % 256; let hi = y / 256;
+    vstd::arithmetic::div_mod::lemma_fundamental_div_mod(y, 256);
+    assert(0 <= hi <= 255) by (nonlinear_arith) requires y == 256 * hi + lo, 0 <= y <= 65535, 0 <= lo < 256;
+    let c = 0xffff - y;
+    assert(c == 256 * (255 - hi) + (255 - lo));
+    vstd::arithmetic::div_mod::lemma_fundamental_div_mod_converse(c, 256, 255 - hi, 255 - lo);
+    assert(swap16(c) == 0xffff - swap16(y));
+    assert(swap16(0xffff) == 0xffff) by (compute);
+    if c == 0 { assert(swap16(y) == 0xffff); }
+    if swap16(y) == 0xffff {
+        assert(lo == 255 && hi == 255) by (nonlinear_arith) requires lo * 256 + hi == 0xffff, 0 <= hi <= 255, 0 <= lo <= 255;
+    }
 }
 
 } // verus!
